@@ -450,13 +450,21 @@ def run(ctx):
     # C07_rules (long vm_compute) in a second thread; factory then the exact-rank file here
     import threading
     box = {}
-    th = threading.Thread(target=lambda: box.__setitem__("r1", ctx.coq(["C07_rules.v"], timeout=900)))
+    def _rules():
+        box["r1"] = ctx.coq(["C07_rules.v"], timeout=900)
+        if box["r1"].ok:
+            ctx.copy_props("C07/C07_measure.v")
+            box["r4"] = ctx.coq(["C07_measure.v"], timeout=600)
+    th = threading.Thread(target=_rules)
     th.start()
     r2 = ctx.coq(["C07_factory.v"], timeout=900)
     ctx.copy_props("C07/C07_rank_exact.v")
     r3 = ctx.coq(["C07_rank_exact.v"], timeout=1200) if r2.ok else None
     th.join()
     r1 = box["r1"]
+    if "r4" in box and not box["r4"].ok:
+        ctx.violation("proof-broken:C07_measure.v", "a tabulated rule no longer documents exactness for all monomials of degree <= 1 (measure / centre corollaries)",
+                      {"obligation": "C07_measure.v", "log": box["r4"].log[-3000:]}, found_input=False)
     if r3 is not None and not r3.ok:
         ctx.violation("proof-broken:C07_rank_exact.v", "the exact (over Q) kernel certificate of the stiffness rule's gradient samples no longer checks although the rank modulo p is full",
                       {"obligation": "C07_rank_exact.v", "log": r3.log[-3000:]}, found_input=False)
